@@ -1041,7 +1041,8 @@ impl Formatter<'_> {
     fn format_word(&mut self, word: &Sp<Word>, depth: usize) {
         match &word.value {
             Word::Number(_, s) => {
-                if s.starts_with('¯') && self.output.ends_with(',')
+                // A number right after an empty subscript would become that subscript
+                if self.output.ends_with(',')
                     || !s.starts_with('¯') && self.output.ends_with(|c: char| c.is_ascii_digit())
                     || s.starts_with(|c: char| c.is_ascii_digit()) && self.output.ends_with('¯')
                 {
